@@ -1,6 +1,12 @@
 """C06 — saving is deterministic and idempotent.
 
-Proof (Props/C06.lean): see the theorem list in the evidence.  Correspondence: family load.
+Proof (Props/C06.lean; details in that file's header): `save_twice_witness` (F13 machine-checked),
+`save_twice_no_segments` (any class: save of a segment-less object is idempotent on its own output),
+`save_twice` / `save_idempotent_on_settled` (ELF64, flat or nested segments, none at file offset 0, side
+conditions `ResaveOk` = no F13 trigger and non-zero segment starts: a second successful save returns the
+same result), with the ladder `stepCore_resave` .. `segRun_resave`.  Stated, not proved:
+`SaveLoadSaveStatement`; ELF32 and offset-0 segments (loaded executables) are covered by the
+correspondence run and the oracle only.  Correspondence: family load.
 Oracle: bytes of the first save == bytes of a second save of the same object; bytes of
 save(load(save(obj))) == bytes of save(obj).  Known open finding F13 (address-less NOBITS member with
 an alignment gap: the first save advances the file cursor by the gap, later saves do not) is keyed by
@@ -12,7 +18,20 @@ from families import c03 as _c03
 PROPERTY = "C06"
 FAMILY = "load"
 LEAN_MODULE = "ElfioVerif.Props.C06"
-THEOREMS = ["ElfioVerif.C06.save_twice_witness"]
+THEOREMS = ["ElfioVerif.C06.save_twice_witness",
+            "ElfioVerif.C06.save_twice_witness_offsets",
+            "ElfioVerif.C06.save_twice_witness_byte",
+            "ElfioVerif.C06.saveHdr0_idem",
+            "ElfioVerif.C06.save_noseg_eq",
+            "ElfioVerif.C06.save_twice_no_segments",
+            "ElfioVerif.C06.save_twice_no_segments_bytes",
+            "ElfioVerif.C06.stepCore_resave",
+            "ElfioVerif.C06.wsdStep_resave",
+            "ElfioVerif.C06.wsdLoop_resave",
+            "ElfioVerif.C06.layoutSegment_resave",
+            "ElfioVerif.C06.segRun_resave",
+            "ElfioVerif.C06.save_twice",
+            "ElfioVerif.C06.save_idempotent_on_settled"]
 SITES = ["save_", "lsws", "lst_", "lseg", "wsd"]
 RULE = ("writer-domain programs x 4 configurations: save, save again, reload (eager or lazy), save; plus "
         "well-formed bundled examples: load, save, reload, save; non-trivial = first save succeeded and the "
